@@ -69,5 +69,12 @@ GenDInit ==
           THEN InitWith(Base(p, sd, 131072, "none", pre \o <<LieF>>, BLen(pre) + 13, "eof", "none") @@ [bomb |-> TRUE])
           ELSE InitWith(Base(p, sd, 0, "none", pre \o <<LMsg(40, 9)>> \o tf, 2000000000, "eof", tr) @@ [maxlimit |-> TRUE])
   /\ script = <<>> /\ ew = FALSE
-GenDSpec == GenDInit /\ [][FALSE]_gvars
+\* the largest possible limit on the unary Connect path (no envelope)
+GenDRawInit ==
+  /\ \E sd \in {"client", "handler"}, enc \in {"none", "gzip"} :
+       InitWith([proto |-> "connect", side |-> sd, shape |-> "unary", raw |-> TRUE, reuse |-> FALSE, limit |-> 0, enc |-> enc,
+                 frames |-> <<IF enc = "gzip" THEN LCMsg(20, 40, 9) ELSE LMsg(40, 9)>>, cut |-> 2000000000, tail |-> "eof",
+                 trailers |-> "none", maxlimit |-> TRUE])
+  /\ script = <<>> /\ ew = FALSE
+GenDSpec == (GenDInit \/ GenDRawInit) /\ [][FALSE]_gvars
 =============================================================================
